@@ -23,7 +23,7 @@ from .core import HarnessError, Outcome, Violation, jsonable, stable_hash
 from . import shrink as _shrink
 
 VERIF_DIR = os.path.dirname(os.path.dirname(os.path.abspath(__file__)))
-RUN_TIMEOUT = 30          # seconds; a single run on a tiny world never legitimately needs this
+RUN_TIMEOUT = 90          # seconds; a single run on a tiny world never legitimately needs this
 HANG_TIMEOUT = 300        # seconds; worker is killed (harness error) if a run cannot be interrupted
 STATE_CAP = 400000        # distinct state hashes kept per chunk / overall (lower bound beyond)
 
@@ -76,13 +76,14 @@ def _alarm(signum, frame):
 def safe_execute(mod, case):
     """Execute one case; classify what comes out.  Returns an Outcome."""
     old = signal.signal(signal.SIGALRM, _alarm)
-    signal.alarm(RUN_TIMEOUT)
+    limit = getattr(mod, "RUN_TIMEOUT", RUN_TIMEOUT)
+    signal.alarm(limit)
     try:
         out = mod.execute(case)
     except RunTimeout:
         out = Outcome()
         out.violation = {"clause": "no-progress", "op": "run",
-                         "detail": "run did not finish within %d s wall" % RUN_TIMEOUT}
+                         "detail": "run did not finish within %d s wall" % limit}
     except Violation as v:
         out = Outcome()
         out.violation = v.as_dict()
